@@ -53,8 +53,9 @@ func init() {
 func init() {
 	roots := []string{"(*fixedHeader).ReadRemaining", "ReadPacket", "(*Publish).QoS", "(*Publish).Duplicate", "(*Publish).Retain"}
 	roots = append(roots, methodsOf(packetTypes, "fill")...)
+	roots = append(roots, methodsOf(packetTypes, "WriteTo")...)
 	propSpecs["C16"] = &PropSpec{ID: "C16", Roots: roots,
-		Note: "ReadRemaining: for all 256 values of the first byte (one bit-vector variable) the dynamic type of the returned packet is the one selected by the upper nibble (Undefined for 0) and, for types 1..15, its stored first byte equals the received one (UnmarshalBinary of every type is proved not to change it); Publish.QoS/Duplicate/Retain decode bits 2-1, 3 and 0; every packet's fill writes the stored first byte at offset 0, so re-encoding reproduces it"}
+		Note: "ReadRemaining: for all 256 values of the first byte (one bit-vector variable) the dynamic type of the returned packet is the one selected by the upper nibble (Undefined for 0) and, for types 1..15, its stored first byte equals the received one (UnmarshalBinary of every type is proved not to change it); Publish.QoS/Duplicate/Retain decode bits 2-1, 3 and 0; every packet's fill writes the stored first byte at offset 0 and WriteTo hands the writer a buffer whose first byte is the stored first byte (ghost $w0), so re-encoding reproduces it"}
 }
 
 func init() {
